@@ -1299,7 +1299,8 @@ func (g *evGen) withControl() {
 			if !g.dead {
 				g.afterRefresh(prior, rows(), strings.HasPrefix(ans, "ok "))
 			}
-			// rows without any address make hostInfoFromMap panic: repair for the following steps
+			// rows without any address make hostInfoFromMap fail (an error since the repair of KF-C05-25, a panic
+			// before): repair for the following steps
 			for i := range peers {
 				if peers[i].defect == "noaddr" {
 					peers[i].defect = ""
